@@ -164,7 +164,18 @@ pub struct CommandLine {
 
 impl Command {
     pub fn from_tokens(tokens: Tokens) -> Result<Command, String> {
-        let mut tokens_new = tokens.clone();
+        // `cmd <file` written without a blank: the tokenizer leaves the word
+        // `<file` in one piece; split it into `<` and the file name here
+        // (a word starting with `<<` is left alone).
+        let mut tokens_new: Tokens = Vec::new();
+        for t in tokens {
+            if t.0.is_empty() && t.1.len() > 1 && t.1.starts_with('<') && !t.1[1..].starts_with('<') {
+                tokens_new.push((String::new(), "<".to_string()));
+                tokens_new.push((String::new(), t.1[1..].to_string()));
+            } else {
+                tokens_new.push(t);
+            }
+        }
         let mut redirects_from_type = String::new();
         let mut redirects_from_value = String::new();
         let mut has_redirect_from = tokens_new.iter().any(|x| x.0.is_empty() && (x.1 == "<" || x.1 == "<<<"));
